@@ -23,7 +23,7 @@ type Graph struct {
 	Cyclic bool
 }
 
-var taskNamePool = []string{"build", "alpha", "zeta", "deploy", "lint", "a", "b", "test", "x-1", "pack", "ship", "m", "omega", "prep", "k9", "unit"}
+var taskNamePool = []string{"build", "alpha", "zeta", "deploy", "lint", "a", "b", "test", "x-1", "pack", "ship", "m", "omega", "prep", "k9", "unit", "Lint", "A", "BUILD"} // (names that differ only in case are different tasks)
 
 // RandNames returns n distinct task names in random order (so that name order is unrelated to dependency order)
 func RandNames(r *rand.Rand, n int) []string {
